@@ -18,7 +18,9 @@ from .astutil import call_name
 MUTATING_METHODS = {"remove", "append", "extend", "pop", "clear", "sort", "reverse", "insert", "add", "discard", "update",
                     "fill", "resize", "put", "itemset", "setdefault", "popitem", "partition", "setflags", "byteswap",
                     "difference_update", "intersection_update", "symmetric_difference_update",
-                    "__setitem__", "__delitem__", "__iadd__", "__isub__", "__imul__", "__ior__", "__iand__",
+                    "__setitem__", "__delitem__", "__iadd__", "__isub__", "__imul__", "__ior__", "__iand__", "__itruediv__", "__ifloordiv__",
+                    "__imod__", "__ipow__", "__ixor__", "__ilshift__", "__irshift__", "__imatmul__", "__setattr__", "__delattr__",
+                    "setfield", "appendleft", "extendleft", "popleft", "rotate", "move_to_end", "subtract", "writelines", "truncate",
                     # the repository's own in-place operations (BondList, atom arrays)
                     "remove_aromaticity", "remove_bond_order", "add_bond", "remove_bond", "remove_bonds", "remove_bonds_to",
                     "set_annotation", "add_annotation", "del_annotation"}
@@ -107,6 +109,30 @@ def _scan(q, f, funcs, by_name, result):
     depth = [0]
     state = {"al": {}}
 
+    # locals that may be a function of this module: `f = _helper`, `f = _a if c else _b`, `fs = [_a, _b]` ... `for f in fs`
+    fn_values = {}
+    for _ in range(3):
+        for n_ in ast.walk(f):
+            tv = []
+            if isinstance(n_, ast.Assign):
+                tv = [(t, n_.value) for t in n_.targets]
+            elif isinstance(n_, (ast.AnnAssign, ast.NamedExpr)) and n_.value is not None:
+                tv = [(n_.target, n_.value)]
+            elif isinstance(n_, (ast.For, ast.comprehension)):
+                tv = [(n_.target, n_.iter)]
+            for t, v in tv:
+                callee_pos = {id(c_.func) for c_ in ast.walk(v) if isinstance(c_, ast.Call)}
+                got = set()
+                for x in ast.walk(v):
+                    if isinstance(x, ast.Name) and id(x) not in callee_pos:
+                        if x.id in by_name and x.id not in ps:
+                            got.add(x.id)
+                        got |= fn_values.get(x.id, set())
+                if got:
+                    for x in ast.walk(t):
+                        if isinstance(x, ast.Name):
+                            fn_values.setdefault(x.id, set()).update(got)
+
     def R2(e, al):
         state["al"] = al
         same = {k: v for k, v in al.items() if not k.startswith("*")}
@@ -163,8 +189,35 @@ def _scan(q, f, funcs, by_name, result):
             if (line, what) not in found[p]:
                 found[p].append((line, what))
 
+    def weakname(al, name, pr):
+        setname(al, name, (set(al.get(name, ())) | pr[0], set(al.get("*" + name, ())) | pr[1]))
+
     def visit_expr(node, al):
+        # names bound inside the expression: comprehension targets are items of what is iterated; the parameters of a lambda may be
+        # anything the expression has in sight
         for c in ast.walk(node):
+            if isinstance(c, (ast.ListComp, ast.SetComp, ast.DictComp, ast.GeneratorExp)):
+                for g in c.generators:
+                    pr_ = elem(R2(g.iter, al))
+                    for t_ in ast.walk(g.target):
+                        if isinstance(t_, ast.Name) and isinstance(t_.ctx, ast.Store):
+                            weakname(al, t_.id, pr_)
+                    if not isinstance(g.target, ast.Name):
+                        for t_ in ast.walk(g.target):
+                            if isinstance(t_, (ast.Subscript, ast.Attribute)) and isinstance(t_.ctx, ast.Store):
+                                store_into(t_, al, getattr(c, "lineno", 0), "store into " + ast.unparse(t_)[:30], pr_)
+            elif isinstance(c, ast.Lambda):
+                s_l, h_l = set(), set()
+                for n_ in ast.walk(node):
+                    if isinstance(n_, ast.Name) and isinstance(n_.ctx, ast.Load):
+                        s_l |= set(al.get(n_.id, ()))
+                        h_l |= set(al.get("*" + n_.id, ()))
+                for a_ in ast.walk(c.args):
+                    if isinstance(a_, ast.arg):
+                        weakname(al, a_.arg, (s_l | h_l, h_l))
+        for c in ast.walk(node):
+            if isinstance(c, ast.NamedExpr) and not isinstance(c.target, ast.Name):
+                bind_target(c.target, R2(c.value, al), al, getattr(c, "lineno", 0))
             if isinstance(c, ast.NamedExpr) and isinstance(c.target, ast.Name):
                 pr = R2(c.value, al)
                 setname(al, c.target.id, (set(al.get(c.target.id, ())) | pr[0], set(al.get("*" + c.target.id, ())) | pr[1]))
@@ -198,7 +251,18 @@ def _scan(q, f, funcs, by_name, result):
                 short = cn.split(".")[-1]
                 cands = [x for x in by_name.get(short, []) if cn == short or cn.startswith(("self.", "cls."))]
                 if isinstance(c.func, ast.Name) and c.func.id in local_callables:
-                    cands = []
+                    # a local that was bound to functions of the module (`f = _helper`): any of them may run
+                    cands = [x for g_ in sorted(fn_values.get(c.func.id, ())) for x in by_name.get(g_, [])]
+                # a function of the module handed to another callable (`map(_helper, xs)`, `sorted(xs, key=_helper)`): it may be run
+                # with any of the other arguments, or with their items
+                for a in list(c.args) + [k.value for k in c.keywords]:
+                    if isinstance(a, ast.Name) and (a.id in by_name and a.id not in local_callables or a.id in fn_values):
+                        for g_ in sorted(fn_values.get(a.id, {a.id})):
+                            for callee in by_name.get(g_, []):
+                                if any(k_ != "__returns__" for k_ in result.get(callee, {})):
+                                    for o_ in list(c.args) + [k.value for k in c.keywords]:
+                                        if o_ is not a:
+                                            hit(both(R2(o_, al)), c.lineno, f"{g_}() (handed to {(call_name(c) or '?')[:20]}()) changes a parameter")
                 for callee in cands:
                     cps = _params(funcs[callee])
                     if "." in callee and cps and cps[0] in ("self", "cls") and cn.startswith(("self.", "cls.")):
@@ -213,7 +277,7 @@ def _scan(q, f, funcs, by_name, result):
     def note_escape(t, pr, line):
         """`self.a = v`, `self.__dict__["a"] = v` (in any assignment shape): the instance keeps the object v may be"""
         b = _base(t)
-        if not (isinstance(b, ast.Name) and b.id == "self"):
+        if not (isinstance(b, ast.Name) and (b.id == "self" or ps[:1] == ["self"] and "self" in state["al"].get(b.id, ()))):
             return
         if isinstance(t, ast.Attribute) and t.value is b:
             what = "self." + t.attr
@@ -237,14 +301,49 @@ def _scan(q, f, funcs, by_name, result):
         if value_pr is not None:
             hold(al, t.value, value_pr, t)
 
-    def bind_target(t, pr, al):
+    def bind_target(t, pr, al, line=0):
+        """any binding construct (assignment, annotated assignment, for / with / comprehension target, walrus): a name is bound, a
+        subscript / attribute target is a store into its object"""
         if isinstance(t, ast.Name):
             setname(al, t.id, pr)
         elif isinstance(t, ast.Starred):
-            bind_target(t.value, pr, al)
+            bind_target(t.value, pr, al, line)
         elif isinstance(t, (ast.Tuple, ast.List)):
             for x in t.elts:
-                bind_target(x, elem(pr), al)
+                bind_target(x, elem(pr), al, line)
+        elif isinstance(t, (ast.Subscript, ast.Attribute)):
+            store_into(t, al, line or getattr(t, "lineno", 0), "store into " + ast.unparse(t)[:30], pr)
+
+    def bind_nested_params(nf, inner, al):
+        """the parameters of a nested function: whatever the calls of that function in the enclosing function hand over (by position
+        or keyword, in the state at hand); a function that is handed on as a value may be called with anything in sight"""
+        names = [a_.arg for a_ in nf.args.posonlyargs + nf.args.args]
+        every = [a_.arg for a_ in ast.walk(nf.args) if isinstance(a_, ast.arg)]
+        got = {n_: (set(), set()) for n_ in every}
+        escaped = False
+        for c_ in ast.walk(f):
+            if isinstance(c_, ast.Call) and isinstance(c_.func, ast.Name) and c_.func.id == nf.name:
+                for k_, a_ in enumerate(c_.args):
+                    pr_ = R2(a_.value if isinstance(a_, ast.Starred) else a_, al)
+                    tgt = [names[k_]] if k_ < len(names) and not isinstance(a_, ast.Starred) else every
+                    for n_ in tgt:
+                        got[n_] = (got[n_][0] | pr_[0] | (pr_[1] if isinstance(a_, ast.Starred) else set()), got[n_][1] | pr_[1])
+                for kw in c_.keywords:
+                    pr_ = R2(kw.value, al)
+                    for n_ in ([kw.arg] if kw.arg in got else every):
+                        got[n_] = (got[n_][0] | pr_[0], got[n_][1] | pr_[1])
+            elif isinstance(c_, ast.Name) and c_.id == nf.name and isinstance(c_.ctx, ast.Load):
+                escaped = True
+        called_directly = {id(c_.func) for c_ in ast.walk(f) if isinstance(c_, ast.Call)}
+        escaped = any(isinstance(c_, ast.Name) and c_.id == nf.name and isinstance(c_.ctx, ast.Load) and id(c_) not in called_directly for c_ in ast.walk(f))
+        if escaped:
+            s_a, h_a = set(), set()
+            for k_, v_ in al.items():
+                (h_a if k_.startswith("*") else s_a).update(v_)
+            for n_ in every:
+                got[n_] = (got[n_][0] | s_a | h_a, got[n_][1] | h_a)
+        for n_ in every:
+            setname(inner, n_, got[n_])
 
     def copy_state(al):
         return {k: set(v) for k, v in al.items()}
@@ -259,9 +358,7 @@ def _scan(q, f, funcs, by_name, result):
                 # a nested function sees the caller's names; whatever it does to them happens when it is called
                 nested.append(st)
                 inner = copy_state(al)
-                for a_ in ast.walk(st.args):
-                    if isinstance(a_, ast.arg):
-                        setname(inner, a_.arg, (set(), set()))
+                bind_nested_params(st, inner, al)
                 depth[0] += 1
                 run(st.body, inner)
                 depth[0] -= 1
@@ -295,16 +392,17 @@ def _scan(q, f, funcs, by_name, result):
                         bind_target(t, new, al)
                 continue
             if isinstance(st, ast.AnnAssign):
-                if st.value is not None and isinstance(st.target, ast.Name):
+                if st.value is not None:
                     visit_expr(st.value, al)
-                    setname(al, st.target.id, R2(st.value, al))
+                    bind_target(st.target, R2(st.value, al), al, st.lineno)
                 continue
             if isinstance(st, ast.AugAssign):
                 visit_expr(st.value, al)
                 b = _base(st.target)
                 if isinstance(b, ast.Name) and not getattr(st, "_rebind", False) and not (isinstance(st.target, ast.Attribute) and b.id in ("self", "cls")):
-                    if isinstance(st.target, ast.Name) and isinstance(st.value, (ast.Constant, ast.JoinedStr)) and not isinstance(st.op, ast.Mult):
-                        pass     # `n += 1`, `s += "x"`: numbers and strings are immutable
+                    if isinstance(st.target, ast.Name) and isinstance(st.value, (ast.Constant, ast.JoinedStr)) and not isinstance(st.op, ast.Mult) \
+                            and b.id in ps and set(al.get(b.id, ())) <= {b.id}:
+                        pass     # `n += 1`, `s += "x"` on the parameter itself: a counter / text (numbers and strings are immutable)
                     elif isinstance(st.target, ast.Name):
                         hit(al.get(b.id, ()), st.lineno, ast.unparse(st)[:30])
                     else:
@@ -325,9 +423,9 @@ def _scan(q, f, funcs, by_name, result):
                     visit_expr(st.test, al)
                 else:
                     visit_expr(st.iter, al)
-                    bind_target(st.target, elem(R2(st.iter, al)), al)      # iterating a container hands out its items
+                    bind_target(st.target, elem(R2(st.iter, al)), al, st.lineno)      # iterating a container hands out its items
                 state_ = copy_state(al)
-                for _ in range(3):       # to a fixpoint for the small lattices at hand
+                for _ in range(40):      # to a fixpoint (the lattice is finite: sets of parameter names per local)
                     after = run(st.body, copy_state(state_))
                     joined = _union(state_, after)
                     if joined == state_:
@@ -345,7 +443,7 @@ def _scan(q, f, funcs, by_name, result):
                 for i in st.items:
                     visit_expr(i.context_expr, al)
                     if i.optional_vars is not None:
-                        bind_target(i.optional_vars, R2(i.context_expr, al), al)
+                        bind_target(i.optional_vars, elem(R2(i.context_expr, al)), al, st.lineno)
                 al = run(st.body, al)
                 continue
             if isinstance(st, ast.Try):
@@ -354,7 +452,21 @@ def _scan(q, f, funcs, by_name, result):
                 state_ = _union(start, a_body)
                 outs = [run(st.orelse, copy_state(a_body))]
                 for h in st.handlers:
-                    outs.append(run(h.body, copy_state(state_)))
+                    hs = copy_state(state_)
+                    if h.name:
+                        # the exception carries what it was raised with (and may be an object raised by name)
+                        s_h, h_h = set(), set()
+                        for r_ in ast.walk(ast.Module(body=list(st.body), type_ignores=[])):
+                            if isinstance(r_, ast.Raise) and r_.exc is not None:
+                                if isinstance(r_.exc, ast.Call):
+                                    for a_ in list(r_.exc.args) + [k.value for k in r_.exc.keywords]:
+                                        h_h |= both(R2(a_, hs))
+                                else:
+                                    pr_ = R2(r_.exc, hs)
+                                    s_h |= pr_[0]
+                                    h_h |= pr_[1]
+                        setname(hs, h.name, (s_h, h_h))
+                    outs.append(run(h.body, hs))
                 al = outs[0]
                 for o in outs[1:]:
                     al = _union(al, o)
@@ -376,9 +488,7 @@ def _scan(q, f, funcs, by_name, result):
     # late binding: a nested function reads the caller's names as they are when it RUNS - once more with the final state
     for st in list(nested):
         inner = copy_state(final)
-        for a_ in ast.walk(st.args):
-            if isinstance(a_, ast.arg):
-                setname(inner, a_.arg, (set(), set()))
+        bind_nested_params(st, inner, final)
         depth[0] += 1
         run(st.body, inner)
         depth[0] -= 1
